@@ -458,3 +458,416 @@ Lemma example_after_exit :
   /\ registered nobody w_after_exit = [2; 1] /\ ended nobody w_after_exit = [2; 1]
   /\ called nobody w_after_exit = [1].
 Proof. vm_compute. intuition. Qed.
+
+(** ======================================================================================
+    The GENERAL form: every thread whose register() returned BEFORE THE MONITOR THREAD ENDED.
+
+    [registered_while_close_waits] covers one generation of late threads (close() waits for a thread
+    registered before the call).  A thread that registers while close() waits only for ANOTHER LATE
+    thread ("chain-late"), or after a close() with nothing registered yet, is monitored as well: the
+    only boundary is the end of the monitor thread.  [registered_before_monitor_exit] records t at
+    its [EvRegistered] iff no [EvMonExit] has occurred so far ([g_mx = []]), a function of the
+    observable history alone.  That IS the right boundary: the monitor's final exit check runs
+    under the lock from its acquire (MAcq2) to the release that ends the thread (MRelBreak, which
+    emits EvMonExit), and a register() returns with the release of the same lock after its `add`;
+    so a register() that returns before EvMonExit has its `add` before the final check, and one
+    that returns after it is never seen ([w_after_exit]). *)
+
+(** a generic recorder: t is recorded at [EvRegistered t] iff [P] holds of the ghost just before *)
+Section Rec.
+Variable P : ghost -> bool.
+
+Definition rec_ev (gl : ghost * list nat) (e : event) : ghost * list nat :=
+  (ev_ghost (fst gl) e,
+   match e with
+   | EvRegistered t => if P (fst gl) then t :: snd gl else snd gl
+   | _ => snd gl
+   end).
+
+Definition rec_step (gl : ghost * list nat) (l : label) (o : out) : ghost * list nat :=
+  fold_left rec_ev (evs_of o) (g_label (fst gl) l o, snd gl).
+
+Definition rec_fold (h : list (label * out)) (gl : ghost * list nat) : ghost * list nat :=
+  fold_left (fun gl lo => rec_step gl (fst lo) (snd lo)) h gl.
+
+Definition rec_of (h : list (label * out)) : list nat := snd (rec_fold h (g0, [])).
+
+Lemma rec_ev_fst evs : forall gl, fst (fold_left rec_ev evs gl) = fold_left ev_ghost evs (fst gl).
+Proof. induction evs as [|e r IH]; intros gl; simpl; [reflexivity|]. rewrite IH. reflexivity. Qed.
+
+Lemma rec_step_fst gl l o : fst (rec_step gl l o) = g_step (fst gl) l o.
+Proof. unfold rec_step. rewrite rec_ev_fst. reflexivity. Qed.
+
+Lemma rec_fold_fst h : forall gl,
+  fst (rec_fold h gl) = fold_left (fun g lo => g_step g (fst lo) (snd lo)) h (fst gl).
+Proof.
+  induction h as [|lo r IH]; intros gl; simpl; [reflexivity|].
+  unfold rec_fold in IH. rewrite IH, rec_step_fst. reflexivity.
+Qed.
+
+Lemma rec_ev_noreg evs : (forall t, ~ In (EvRegistered t) evs) ->
+  forall gl, snd (fold_left rec_ev evs gl) = snd gl.
+Proof.
+  induction evs as [|e r IH]; intros Hn gl; simpl; [reflexivity|].
+  rewrite IH by (intros t H; apply (Hn t); right; exact H).
+  destruct e; simpl; try reflexivity. elim (Hn t). left. reflexivity.
+Qed.
+
+Fixpoint rrun_from (raises : nat -> bool) (gl : ghost * list nat) (s : state) (ls : list label)
+  : (ghost * list nat) * state :=
+  match ls with
+  | [] => (gl, s)
+  | l :: r => let '(s', o) := step raises s l in rrun_from raises (rec_step gl l o) s' r
+  end.
+
+Lemma rrun_from_spec raises ls : forall gl s,
+  rrun_from raises gl s ls =
+  (rec_fold (combine ls (snd (run_from raises s ls))) gl, fst (run_from raises s ls)).
+Proof.
+  induction ls as [|l r IH]; intros gl s; simpl; [reflexivity|].
+  destruct (step raises s l) as [s' o]. rewrite IH.
+  destruct (run_from raises s' r) as [s'' os]. reflexivity.
+Qed.
+
+Lemma rrun_spec raises ls :
+  rrun_from raises (g0, []) init ls =
+  ((ghost_of (history raises ls), rec_of (history raises ls)), run raises ls).
+Proof.
+  rewrite rrun_from_spec. unfold rec_of, history, outs, run.
+  pose proof (rec_fold_fst (combine ls (snd (run_from raises init ls))) (g0, [])) as H.
+  unfold ghost_of. simpl in H. rewrite <- H. destruct (rec_fold _ _). reflexivity.
+Qed.
+
+Lemma rrun_app raises ls1 : forall gl s ls2,
+  rrun_from raises gl s (ls1 ++ ls2) =
+  rrun_from raises (fst (rrun_from raises gl s ls1)) (snd (rrun_from raises gl s ls1)) ls2.
+Proof.
+  induction ls1 as [|l r IH]; intros gl s ls2; simpl; [reflexivity|].
+  destruct (step raises s l) as [s' o]. apply IH.
+Qed.
+
+Lemma rec_snoc raises ls l :
+  rec_of (history raises (ls ++ [l])) =
+  snd (rec_step (ghost_of (history raises ls), rec_of (history raises ls)) l
+                (snd (step raises (run raises ls) l))).
+Proof.
+  pose proof (rrun_spec raises (ls ++ [l])) as H. rewrite rrun_app, rrun_spec in H. simpl in H.
+  destruct (step raises (run raises ls) l) as [s' o]. simpl.
+  injection H as H _. rewrite H. reflexivity.
+Qed.
+
+Lemma rec_snoc_In raises ls l t :
+  In t (rec_of (history raises (ls ++ [l]))) <->
+  In t (rec_of (history raises ls)) \/
+  (l = Step (Reg t) /\ In (EvRegistered t) (evs_of (snd (step raises (run raises ls) l))) /\
+   P (ghost_of (history raises ls)) = true).
+Proof.
+  rewrite rec_snoc. destruct (step_registers raises (run raises ls) l) as [(t0 & -> & Eo)|Hn].
+  - rewrite Eo. unfold rec_step. cbn [evs_of fold_left g_label fst snd rec_ev].
+    destruct (P _); simpl.
+    + split.
+      * intros [<-|H]; [right; auto|left; exact H].
+      * intros [H|(E & _ & _)]; [right; exact H|left; congruence].
+    + split; [tauto|]. intros [H|(_ & _ & F)]; [exact H|discriminate].
+  - unfold rec_step. rewrite rec_ev_noreg by exact Hn. simpl. split; [tauto|].
+    intros [H|(_ & F & _)]; [exact H|]. elim (Hn t F).
+Qed.
+
+(** the recorder restated with prefixes of the schedule *)
+Lemma rec_spec raises ls t :
+  In t (rec_of (history raises ls)) <->
+  exists ls1 ls2, ls = ls1 ++ Step (Reg t) :: ls2 /\
+    In (EvRegistered t) (evs_of (snd (step raises (run raises ls1) (Step (Reg t))))) /\
+    P (ghost_of (history raises ls1)) = true.
+Proof.
+  induction ls as [|l ls IH] using rev_ind.
+  - split; [intros []|]. intros (ls1 & ls2 & E & _). destruct ls1; discriminate.
+  - rewrite rec_snoc_In. split.
+    + intros [H|(-> & He & W)].
+      * apply IH in H. destruct H as (ls1 & ls2 & -> & H). exists ls1, (ls2 ++ [l]).
+        split; [rewrite <- app_assoc; reflexivity|exact H].
+      * exists ls, []. split; [reflexivity|]. split; [exact He|exact W].
+    + intros (ls1 & ls2 & E & He & W).
+      destruct ls2 as [|l' ls2' _] using rev_ind.
+      * apply app_inj_tail in E. destruct E as (<- & ->). right. auto.
+      * change (ls ++ [l] = ls1 ++ (Step (Reg t) :: ls2') ++ [l']) in E. rewrite app_assoc in E.
+        apply app_inj_tail in E. destruct E as (-> & _). left. apply IH. exists ls1, ls2'. auto.
+Qed.
+
+End Rec.
+
+(** the monitor thread has not ended *)
+Definition mon_running (g : ghost) : bool := match g_mx g with [] => true | _ => false end.
+
+Lemma mon_running_true g : mon_running g = true <-> g_mx g = [].
+Proof. unfold mon_running. destruct (g_mx g); split; congruence. Qed.
+
+Record BInv (g : ghost) (bm : list nat) (s : state) : Prop := {
+  b_rg : forall t, In t bm -> In t (g_rg g);
+  (* the monitor thread cannot have ended while a recorded thread is owed its callback *)
+  b_exit : forall e, m_pc s = MExited e -> forall t, In t bm -> In t (g_cl g);
+  (* as long as the monitor thread runs, EVERY registered thread is recorded *)
+  b_all : (forall e, m_pc s <> MExited e) -> forall t, In t (g_rg g) -> In t bm;
+  (* the threads registered before close() was called are recorded *)
+  b_rgc : forall t, In t (g_rgc g) -> In t bm
+}.
+
+Lemma BInv_init : BInv g0 [] init.
+Proof. constructor; simpl; auto; intros; tauto. Qed.
+
+Lemma binv_mono g bm s g' s' :
+  BInv g bm s ->
+  g_rg g' = g_rg g ->
+  (forall t, In t (g_cl g) -> In t (g_cl g')) ->
+  g_rgc g' = g_rgc g ->
+  (forall e, m_pc s' = MExited e -> m_pc s = MExited e) ->
+  ((forall e, m_pc s' <> MExited e) -> forall e, m_pc s <> MExited e) ->
+  BInv g' bm s'.
+Proof.
+  intros [H1 H2 H3 H4] Hrg Hcl Hrgc Hm Hn. constructor.
+  - intros t H. rewrite Hrg. apply H1, H.
+  - intros e E t H. apply Hcl. apply (H2 e (Hm e E) t H).
+  - intros E t H. rewrite Hrg in H. apply H3; [apply Hn, E|exact H].
+  - intros t H. rewrite Hrgc in H. apply H4, H.
+Qed.
+
+Section BSteps.
+Variable raises : nat -> bool.
+
+Ltac bsame g s :=
+  cbn [fst snd]; unfold rec_step; cbn [evs_of fold_left g_label fst snd rec_ev ev_ghost];
+  apply (binv_mono g _ s); simpl; auto; try (intros; congruence); try (intros; discriminate).
+
+Lemma bstep_mon g bm s :
+  Inv g s -> BInv g bm s ->
+  BInv (fst (rec_step mon_running (g, bm) (Step Mon) (snd (step_mon raises s))))
+       (snd (rec_step mon_running (g, bm) (Step Mon) (snd (step_mon raises s))))
+       (fst (step_mon raises s)).
+Proof.
+  intros I L. unfold step_mon. destruct (m_pc s) eqn:Epc.
+  - destruct (lock s); bsame g s.
+  - bsame g s.
+  - bsame g s.
+  - destruct (_ =? _); [destruct (m_todo s)|]; bsame g s.
+  - destruct (is_alive _); bsame g s.
+  - bsame g s.
+  - bsame g s.
+  - bsame g s.
+  - bsame g s. destruct (m_cbs s); intros; discriminate.
+  - destruct (m_cbs s) as [|d rest]; [bsame g s|].
+    bsame g s. destruct rest; intros; discriminate.
+  - destruct (lock s); bsame g s.
+  - bsame g s.
+  - destruct (obj _ _); bsame g s.
+  - destruct (closed s); bsame g s.
+  - (* MRelBreak: the monitor thread ends -- every thread whose add was executed has been called back *)
+    assert (Hall : forall t, In t (g_rg g) -> In t (g_cl g)).
+    { intros t Hr. destruct (in_dec Nat.eq_dec t (g_cl g)) as [H|H]; [exact H|].
+      assert (Ha : added (regs s t)) by (destruct (i_rg _ _ I t Hr) as [E|E]; rewrite E; exact Logic.I).
+      destruct (i_owed _ _ I t Ha H) as [F|F].
+      - rewrite (i_empty _ _ I) in F by (right; exact Epc). destruct F.
+      - rewrite (i_cbs_nil _ _ I) in F by (rewrite Epc; simpl; tauto). destruct F. }
+    destruct L as [H1 H2 H3 H4].
+    unfold mon_exit. destruct (closer s) eqn:Ec;
+      cbn [fst snd]; unfold rec_step; cbn [evs_of fold_left g_label fst snd rec_ev ev_ghost];
+      constructor; simpl; auto; try (intros F; exfalso; eapply F; reflexivity).
+  - bsame g s.
+  - elim (i_noexc _ _ I Epc).
+  - bsame g s.
+Qed.
+
+Lemma bstep_reg g bm s t :
+  Inv g s -> BInv g bm s ->
+  BInv (fst (rec_step mon_running (g, bm) (Step (Reg t)) (snd (step_reg s t))))
+       (snd (rec_step mon_running (g, bm) (Step (Reg t)) (snd (step_reg s t))))
+       (fst (step_reg s t)).
+Proof.
+  intros I L. unfold step_reg. destruct (regs s t) eqn:Er; try solve [bsame g s].
+  - destruct (lock s); bsame g s.
+  - (* RRel: register() returns *)
+    cbn [fst snd]; unfold rec_step; cbn [evs_of fold_left g_label fst snd rec_ev ev_ghost].
+    destruct L as [H1 H2 H3 H4]. unfold mon_running. destruct (g_mx g) as [|e0 r] eqn:Emx.
+    + constructor; simpl.
+      * intros x [<-|H]; auto.
+      * intros e E. pose proof (i_mx_rev _ _ I e E) as F. rewrite Emx in F. destruct F.
+      * intros E x [<-|H]; auto.
+      * intros x H. right. apply H4, H.
+    + assert (Hx : m_pc s = MExited e0) by (apply (i_mx _ _ I); rewrite Emx; left; reflexivity).
+      constructor; simpl.
+      * intros x H. right. apply H1, H.
+      * exact H2.
+      * intros E. elim (E e0 Hx).
+      * exact H4.
+Qed.
+
+Lemma bstep_closer g bm s :
+  Inv g s -> BInv g bm s ->
+  BInv (fst (rec_step mon_running (g, bm) (Step Closer) (snd (step_closer s))))
+       (snd (rec_step mon_running (g, bm) (Step Closer) (snd (step_closer s))))
+       (fst (step_closer s)).
+Proof.
+  intros I L. unfold step_closer. destruct (closer s) eqn:Ec; try solve [bsame g s].
+  destruct (m_pc s); bsame g s.
+Qed.
+
+Lemma bstep g bm s l :
+  Inv g s -> BInv g bm s ->
+  BInv (fst (rec_step mon_running (g, bm) l (snd (step raises s l))))
+       (snd (rec_step mon_running (g, bm) l (snd (step raises s l))))
+       (fst (step raises s l)).
+Proof.
+  intros I L. destruct l as [t|[| |t]|t|]; simpl.
+  - destruct (regs s t); bsame g s.
+  - apply bstep_mon; assumption.
+  - apply bstep_closer; assumption.
+  - apply bstep_reg; assumption.
+  - destruct (regs s t); bsame g s.
+  - (* CloseCall: the monitor thread cannot have ended before close() is called *)
+    destruct (closer s) eqn:Ec; try solve [bsame g s].
+    assert (Hn : forall e, m_pc s <> MExited e).
+    { intros e E. destruct (i_exit _ _ I e E) as (_ & _ & F). elim F. exact Ec. }
+    destruct L as [H1 H2 H3 H4].
+    cbn [fst snd]; unfold rec_step; cbn [evs_of fold_left g_label fst snd].
+    constructor; simpl; auto.
+Qed.
+
+End BSteps.
+
+Lemma rrun_inv raises ls : forall gl s, Inv (fst gl) s -> BInv (fst gl) (snd gl) s ->
+  Inv (fst (fst (rrun_from mon_running raises gl s ls))) (snd (rrun_from mon_running raises gl s ls)) /\
+  BInv (fst (fst (rrun_from mon_running raises gl s ls))) (snd (fst (rrun_from mon_running raises gl s ls)))
+       (snd (rrun_from mon_running raises gl s ls)).
+Proof.
+  induction ls as [|l r IH]; intros [g bm] s I L; simpl; [split; assumption|].
+  pose proof (step_inv raises g s l I) as I'. pose proof (bstep raises g bm s l I L) as L'.
+  simpl in I, L. destruct (step raises s l) as [s' o]. apply IH.
+  - rewrite rec_step_fst. exact I'.
+  - exact L'.
+Qed.
+
+Theorem BInv_run raises ls :
+  BInv (ghost_of (history raises ls)) (rec_of mon_running (history raises ls)) (run raises ls).
+Proof.
+  pose proof (rrun_inv raises ls (g0, []) init Inv_init BInv_init) as (_ & H).
+  rewrite rrun_spec in H. exact H.
+Qed.
+
+Section General.
+Variable raises : nat -> bool.
+
+(** threads whose register() returned before the monitor thread ended *)
+Definition registered_before_monitor_exit (ls : list label) : list nat :=
+  rec_of mon_running (history raises ls).
+
+(** the definition with prefixes of the schedule, without the ghost *)
+Theorem general_spec ls t :
+  In t (registered_before_monitor_exit ls) <->
+  exists ls1 ls2, ls = ls1 ++ Step (Reg t) :: ls2 /\
+    In (EvRegistered t) (evs_of (snd (step raises (run raises ls1) (Step (Reg t))))) /\
+    monitor_exits raises ls1 = [].
+Proof.
+  unfold registered_before_monitor_exit, monitor_exits. rewrite rec_spec.
+  split; intros (ls1 & ls2 & H1 & H2 & H3); exists ls1, ls2; (split; [exact H1|]); (split; [exact H2|]);
+    apply mon_running_true; exact H3.
+Qed.
+
+(** it contains both sets of the one-generation theorems ... *)
+Theorem general_includes ls t :
+  In t (registered_before_close raises ls ++ registered_while_close_waits raises ls) ->
+  In t (registered_before_monitor_exit ls).
+Proof.
+  intros H. apply in_app_or in H. destruct H as [H|H].
+  - apply (b_rgc _ _ _ (BInv_run raises ls)). exact H.
+  - apply general_spec. apply late_spec in H. destruct H as (ls1 & ls2 & H1 & H2 & u & Hu & Hnu).
+    exists ls1, ls2. split; [exact H1|]. split; [exact H2|].
+    destruct (monitor_exits raises ls1) as [|e r] eqn:Em; [reflexivity|]. exfalso.
+    pose proof (Inv_run raises ls1) as I.
+    assert (Hx : m_pc (run raises ls1) = MExited e).
+    { apply (i_mx _ _ I). unfold monitor_exits in Em. rewrite Em. left. reflexivity. }
+    destruct (i_exit _ _ I e Hx) as (_ & Hall & _). apply Hnu. apply Hall. exact Hu.
+Qed.
+
+(** ... only registered threads, and, as long as the monitor thread runs, ALL of them *)
+Theorem general_registered ls t :
+  In t (registered_before_monitor_exit ls) -> In t (registered raises ls).
+Proof. apply (b_rg _ _ _ (BInv_run raises ls)). Qed.
+
+Theorem general_all_while_running ls :
+  monitor_exits raises ls = [] ->
+  forall t, In t (registered raises ls) -> In t (registered_before_monitor_exit ls).
+Proof.
+  intros Hm. apply (b_all _ _ _ (BInv_run raises ls)). intros e E.
+  pose proof (i_mx_rev _ _ (Inv_run raises ls) e E) as F. unfold monitor_exits in Hm. rewrite Hm in F. destruct F.
+Qed.
+
+(** once the monitor thread has ended, every thread whose register() returned before that has ended
+    and its callback was invoked exactly once *)
+Theorem general_monitor_exactly_once ls e :
+  In e (monitor_exits raises ls) ->
+  forall t, In t (registered_before_monitor_exit ls) ->
+    count_occ Nat.eq_dec (called raises ls) t = 1 /\ In t (ended raises ls).
+Proof.
+  intros Hm t Hr. pose proof (Inv_run raises ls) as I. pose proof (BInv_run raises ls) as L.
+  pose proof (b_exit _ _ _ L e (i_mx _ _ I e Hm) t Hr) as Hall. split.
+  - apply NoDup_count_occ'; [apply (i_cl_nodup _ _ I)|exact Hall].
+  - apply (i_dead _ _ I). apply (i_cl_dead _ _ I). exact Hall.
+Qed.
+
+Theorem general_monitor_waits ls e :
+  In e (monitor_exits raises ls) ->
+  forall t, In t (registered_before_monitor_exit ls) -> In t (called raises ls) /\ In t (ended raises ls).
+Proof.
+  intros Hm t Hr. destruct (general_monitor_exactly_once ls e Hm t Hr) as (H1 & H2). split; [|exact H2].
+  apply (count_occ_In Nat.eq_dec). lia.
+Qed.
+
+(** hence once close() has returned *)
+Theorem general_exactly_once ls e :
+  In e (close_results raises ls) ->
+  forall t, In t (registered_before_monitor_exit ls) ->
+    count_occ Nat.eq_dec (called raises ls) t = 1 /\ In t (ended raises ls).
+Proof. intros Hc. apply (general_monitor_exactly_once ls e). apply close_after_monitor. exact Hc. Qed.
+
+Theorem general_close_waits ls e :
+  In e (close_results raises ls) ->
+  forall t, In t (registered_before_monitor_exit ls) -> In t (called raises ls) /\ In t (ended raises ls).
+Proof. intros Hc. apply (general_monitor_waits ls e). apply close_after_monitor. exact Hc. Qed.
+
+End General.
+
+(** [w_chain]: 1 registers and ends, close() blocks in join(); 2 registers while the callback for 1
+    is pending (late); 1 is called back; 3 registers while close() waits ONLY for the late thread 2
+    (chain-late: not in [registered_while_close_waits]); 2 and 3 end and are called back.
+    [w_close_first]: close() is called with nothing registered and blocks in join() while the
+    monitor is between two exit checks; then 1 registers, ends, is called back; close() returns. *)
+Definition w_chain : list label :=
+  reg4 1 ++ [Die 1] ++ close4 ++ mon 10 ++ reg4 2 ++ mon 5 ++ reg4 3 ++ [Die 2; Die 3] ++ mon 21.
+Definition w_close_first : list label :=
+  mon 13 ++ close4 ++ reg4 1 ++ [Die 1] ++ mon 30.
+
+Lemma example_general :
+  (* a chain of two late threads: 3 is not covered by the one-generation set, but is by the general one *)
+  (close_results nobody w_chain = [None]
+   /\ registered_before_close nobody w_chain = [1]
+   /\ registered_while_close_waits nobody w_chain = [2]
+   /\ registered_before_monitor_exit nobody w_chain = [3; 2; 1]
+   /\ called nobody w_chain = [3; 2; 1] /\ ended nobody w_chain = [3; 2; 1])
+  (* close() called with nothing registered yet *)
+  /\ (close_results nobody w_close_first = [None]
+      /\ registered_before_close nobody w_close_first = []
+      /\ registered_while_close_waits nobody w_close_first = []
+      /\ registered_before_monitor_exit nobody w_close_first = [1]
+      /\ called nobody w_close_first = [1] /\ ended nobody w_close_first = [1])
+  (* the callback of the chain-late thread raises: close() re-raises it *)
+  /\ (close_results (fun t => t =? 3) w_chain = [Some (ExCb 3)]
+      /\ called (fun t => t =? 3) w_chain = [3; 2; 1]).
+Proof. vm_compute. intuition. Qed.
+
+(** the boundary: thread 2's register() returns after the monitor thread ended; it is registered and
+    ended, not in [registered_before_monitor_exit], and never called back *)
+Lemma example_general_boundary :
+  close_results nobody w_after_exit = [None] /\ monitor_exits nobody w_after_exit = [None]
+  /\ registered nobody w_after_exit = [2; 1] /\ ended nobody w_after_exit = [2; 1]
+  /\ registered_before_monitor_exit nobody w_after_exit = [1]
+  /\ called nobody w_after_exit = [1].
+Proof. vm_compute. intuition. Qed.
